@@ -2148,6 +2148,9 @@ func (t *tScreen) disengage() {
 	verifSched("disengage.joined")
 
 	// shutdown the screen and disable special modes (e.g. mouse and bracketed paste)
+	// (with the lock held: the application may be drawing from another goroutine)
+	t.Lock()
+	defer t.Unlock()
 	ti := t.ti
 	t.cells.Resize(0, 0)
 	t.TPuts(ti.ShowCursor)
